@@ -144,6 +144,81 @@ func checkC01(c *hx.Ctx) {
 			c.Sample(2, map[string]interface{}{"legit": histString(L), "forged": histString(F), "result": kL})
 		}
 	})
+	// ---- exhaustive placement: every forgery kind aimed at every intermediate state, anchored at every position
+	nChains := c.N(40, 700)
+	cseeds := make([]uint64, nChains)
+	for i := range cseeds {
+		cseeds[i] = root.U64()
+	}
+	hx.Parallel(nChains, 16, func(i int) {
+		if c.Violations() > 10 {
+			return
+		}
+		r := hx.NewRng(cseeds[i], "c01x")
+		p := hx.BaseProtocol()
+		types := []string{ref.KeyTypes[i%5], "P-256"}
+		ch := NewChain(r.Split("chain"), ref.SHA256, p, types)
+		var pools [][]*ref.Op
+		pools = append(pools, append(ch.Forgeries("0"), ch.DupCreates("0")...))
+		steps := 1 + i%4
+		for s := 1; s <= steps; s++ {
+			switch {
+			case s == steps && i%3 == 0:
+				ch.Step("deactivate")
+			case (s+i)%3 == 0:
+				ch.Step("recover")
+			default:
+				ch.Step("update")
+			}
+			if !ch.Deact {
+				pools = append(pools, ch.Forgeries(fmt.Sprint(s)))
+			}
+		}
+		var L []*ref.Op
+		for k, o := range ch.Legit {
+			L = append(L, Place(o, uint64(1000+20*k), 3, fmt.Sprintf("L%d", k), p.GenesisTime))
+		}
+		pc := hx.NewClient(hx.NewVersion(p, hx.VersionOpts{}))
+		rmL, errL := SUTResolve(pc, ch.U.Suffix, L, nil)
+		kL := rmKey(rmL, errL)
+		st, merr := ref.Resolve(L, ref.ResolveOpts{})
+		if km := stKey(st, merr); km != kL {
+			c.Violation("C01 legitimate chain does not resolve to the reference state: "+histString(L)+"\n   model:   "+km+"\n   library: "+kL, map[string]interface{}{"legit": replayOps(L)})
+			return
+		}
+		type pos struct {
+			t, n uint64
+			ref  string
+			name string
+		}
+		var positions []pos
+		positions = append(positions, pos{995, 0, "Fb", "before-create"}, pos{uint64(1000 + 20*len(L)), 0, "Fa", "after-last"}, pos{9000, 0, "", "unpublished"})
+		for k := range L {
+			positions = append(positions, pos{uint64(1000+20*k) - 1, 9, fmt.Sprintf("Fp%d", k), fmt.Sprintf("just-before-L%d", k)},
+				pos{uint64(1000 + 20*k), 2, fmt.Sprintf("Fs%d", k), fmt.Sprintf("same-time-lower-number-L%d", k)},
+				pos{uint64(1000 + 20*k), 4, fmt.Sprintf("Ft%d", k), fmt.Sprintf("same-time-higher-number-L%d", k)})
+		}
+		for pi, pool := range pools {
+			for _, f := range pool {
+				for _, ps := range positions {
+					if f.Type == "create" && ps.t <= 1000 && ps.ref != "" {
+						continue // a duplicate create anchored before/at the first create is not "after its first create"
+					}
+					c.Eval()
+					all := append(append([]*ref.Op{}, L...), Place(f, ps.t, ps.n, ps.ref, p.GenesisTime))
+					rm, err := SUTResolve(pc, ch.U.Suffix, all, nil)
+					if k := rmKey(rm, err); k != kL {
+						c.Violation(fmt.Sprintf("C01 a single unauthorised operation changed the resolution result: %s aimed at the state after step %d, anchored %s; legit=[%s]\n   Resolve(L):   %s\n   Resolve(L+F): %s",
+							f.Label, pi, ps.name, histString(L), kL, k), map[string]interface{}{"suffix": ch.U.Suffix, "legit": replayOps(L), "forged": replayOps(all[len(L):])})
+						return
+					}
+					c.Count("exhaustive_placements")
+					c.Distinct(fmt.Sprintf("x|%d|%s|%s|%d", i, f.Label, ps.name, pi))
+				}
+			}
+		}
+	})
+	c.Floor("exhaustive_placements", 5000)
 	c.Floor("forged:e-create-other-delta", 1)
 	c.Floor("forged:d-deact-reveal-mismatch", 1)
 	c.Floor("forged:b-upd-tampered", 1)
